@@ -13,8 +13,12 @@ Open Scope N_scope.
 
 (** ** the supported fragment *)
 
-Definition plain_varint (c : codec) : Prop :=
+Definition plain_varint0 (c : codec) : Prop :=
   match c with CBool => True | CInt b | CUint b | CFlat b => bits_ok b | _ => False end.
+(** elements of a packed varint slice: a scalar, or a pointer to one ([]*int:
+    nil entries are not written at all) *)
+Definition plain_varint (c : codec) : Prop :=
+  match c with CPtr c0 => plain_varint0 c0 | _ => plain_varint0 c end.
 Definition plain_fixed (c : codec) : Prop := match c with CF32 | CF64 => True | _ => False end.
 
 (** the protobuf repeated forms only make sense as struct fields (elsewhere
@@ -544,7 +548,7 @@ Qed.
 
 (** ** packed slices of plain scalars *)
 
-Definition pv_val (c : codec) (x : val) : N :=
+Definition pv_val0 (c : codec) (x : val) : N :=
   match c with
   | CBool => match x with VBool true => 1 | _ => 0 end
   | CInt _ => zigzag (match x with VInt z => z | _ => 0%Z end)
@@ -552,17 +556,37 @@ Definition pv_val (c : codec) (x : val) : N :=
   | CFlat b => match x with VInt z => ubits b z | _ => 0 end
   | _ => 0
   end.
+Definition pv_val (c : codec) (x : val) : N :=
+  match c with
+  | CPtr c0 => match x with VPtr (Some y) => pv_val0 c0 y | _ => 0 end
+  | _ => pv_val0 c x
+  end.
 
-Lemma plain_varint_enc c x : plain_varint c -> enc c x [] = append_varuint (pv_val c x).
-Proof. destruct c; cbn [plain_varint]; try contradiction; intros _; reflexivity. Qed.
+(** case analysis on an element codec of a packed varint slice *)
+Ltac pvcases c H :=
+  destruct c as [ | ? | ? | ? | | | | | ? | | ? | c | ? ? ? | ? | ? | ? | ? | ? ? | ? ? | | | ];
+  cbn [plain_varint plain_varint0] in H; try contradiction;
+  try (destruct c; cbn [plain_varint0] in H; try contradiction).
 
-Lemma pv_val_lt c x : plain_varint c -> wfv c x -> pv_val c x < two64.
+Lemma plain_varint_enc c x : plain_varint c -> wfv c x -> enc c x [] = append_varuint (pv_val c x).
 Proof.
-  destruct c; cbn [plain_varint wfv pv_val]; try contradiction; intros Hb Hw.
+  intros H Hw. pvcases c H; try reflexivity;
+    cbn [wfv] in Hw; destruct x as [ | | | | | |[y|]| | | | | |]; try contradiction; reflexivity.
+Qed.
+
+Lemma pv_val0_lt c x : plain_varint0 c -> wfv c x -> pv_val0 c x < two64.
+Proof.
+  destruct c; cbn [plain_varint0 wfv pv_val0]; try contradiction; intros Hb Hw.
   - destruct x as [[|]| | | | | | | | | | | |]; unfold two64; lia.
   - destruct x; try contradiction. apply zigzag_range. eapply int_range_64; eauto.
   - destruct x; try contradiction. apply u64_lt.
   - destruct x; try contradiction. apply ubits_range. exact Hb.
+Qed.
+Lemma pv_val_lt c x : plain_varint c -> wfv c x -> pv_val c x < two64.
+Proof.
+  intros H Hw. destruct c; try (apply pv_val0_lt; assumption).
+  cbn [plain_varint] in H. cbn [wfv] in Hw. destruct x as [ | | | | | |[y|]| | | | | |]; try contradiction.
+  cbn [pv_val]. apply pv_val0_lt; assumption.
 Qed.
 
 Lemma count_varints_unfold f rest count : rest <> [] ->
@@ -1020,24 +1044,29 @@ Proof.
   - (* CSliceVar *)
     destruct v as [ | | | | | | | | |l| | |]; try (cbn [wfv] in Hw; contradiction).
     cbn [wfv] in Hw. destruct Hf as [Hfe Hlen].
-    assert (Hrt : RTc c) by (apply (proj1 (IH ltac:(destruct c; cbn [plain_varint rt_ok] in *; auto; contradiction)));
-                             destruct c; cbn [plain_varint] in Hok; try contradiction; exact I).
-    assert (Hwc : wire c <> WTLength /\ wire c = WTVarInt) by (destruct c; cbn [plain_varint] in Hok; try contradiction; split; discriminate || reflexivity).
+    assert (Hokc : rt_ok c /\ top_ok c /\ wire c <> WTLength /\ wire c = WTVarInt).
+    { clear -Hok. pvcases c Hok; cbn [rt_ok top_ok wire]; repeat split; auto; discriminate. }
+    destruct Hokc as (Hokc & Htc & Hwc).
+    assert (Hrt : RTc c) by (apply (proj1 (IH Hokc)); exact Htc).
     cbn [enc frame_tag dec merge wire slice_elems].
     assert (Eb : flat_map (fun x => enc c x []) l = flat_map append_varuint (map (pv_val c) l)).
-    { clear -Hok. induction l as [|x l IHl]; cbn [flat_map map]; [reflexivity|]. rewrite IHl, plain_varint_enc by exact Hok. reflexivity. }
+    { clear -Hok Hw. induction l as [|x l IHl]; cbn [flat_map map]; [reflexivity|]. inversion Hw; subst.
+      rewrite IHl, plain_varint_enc by assumption. reflexivity. }
     rewrite Eb at 1 2.
     rewrite count_varints_list.
     + cbn [bind]. rewrite map_length. unfold alloc_guard.
       assert (Hcnt : N.of_nat (length l) <= len (flat_map (fun x => enc c x []) l)).
-      { clear -Hok. induction l as [|x l IHl]; cbn [flat_map length]; [rewrite len_nil; lia|].
-        rewrite len_app, plain_varint_enc by exact Hok. pose proof (append_varuint_length_bounds (pv_val c x)). lia. }
+      { clear -Hok Hw. induction l as [|x l IHl]; cbn [flat_map length]; [rewrite len_nil; lia|]. inversion Hw; subst.
+        rewrite len_app, plain_varint_enc by assumption. pose proof (append_varuint_length_bounds (pv_val c x)).
+        assert (N.of_nat (length l) <= len (flat_map (fun x0 => enc c x0 []) l)) by (apply IHl; assumption). lia. }
       replace (0 + N.of_nat (length l) <=? len (flat_map (fun x => enc c x []) l)) with true by (symmetry; apply N.leb_le; lia).
       cbn [bind]. rewrite N.add_0_l.
       pose proof (read_elems_list c WTVarInt (zero c) Hrt (proj1 Hwc) (eq_sym (proj2 Hwc)) l (S (length (flat_map (fun x => enc c x []) l))) [] 0 []) as HR.
       rewrite app_nil_r in HR. rewrite HR.
       * cbn [bind rev app]. f_equal. f_equal. f_equal.
-        clear -Hok. induction l as [|x l IHl]; cbn [map]; [reflexivity|]. rewrite IHl. destruct c; cbn [plain_varint] in Hok; try contradiction; reflexivity.
+        clear -Hok Hw. induction l as [|x l IHl]; cbn [map]; [reflexivity|]. inversion Hw as [|? ? Hwx Hwl]; subst. rewrite IHl by exact Hwl.
+        f_equal. clear -Hok Hwx. pvcases c Hok; try reflexivity;
+          cbn [wfv] in Hwx; destruct x as [ | | | | | |[y|]| | | | | |]; try contradiction; reflexivity.
       * rewrite Forall_forall in *. intros x Hx. split; [apply Hw; exact Hx|apply Hfe; exact Hx].
       * unfold len in Hcnt. lia.
     + rewrite Forall_forall in *. intros u Hu. apply in_map_iff in Hu. destruct Hu as (x & <- & Hx). apply pv_val_lt; auto.
